@@ -5,7 +5,7 @@
    `fits fs e e0 R cv u` (Proofs/CodecRT.v): dict e supplies encodable values for definition fs; u = octets of the
    encoding; cv = what the decoder appends to e0 when R octets follow.  `wfb` (Model) = well-formed definition. *)
 From Coq Require Import ZArith List Bool.
-From OBB Require Import Gen.CodecConst Base.Bits Model.Codec Proofs.CodecInt Proofs.CodecBits Proofs.CodecRT Proofs.CodecDE Proofs.CodecErr Proofs.CodecCanon Proofs.CodecEx.
+From OBB Require Import Gen.CodecConst Base.Bits Model.Codec Proofs.CodecInt Proofs.CodecBits Proofs.CodecRT Proofs.CodecDE Proofs.CodecErr Proofs.CodecCanon Proofs.CodecExact Proofs.CodecEx Proofs.CodecTop.
 Import ListNotations.
 Open Scope Z_scope.
 
@@ -17,7 +17,8 @@ Theorem c16_constants :
 Proof. exact codec_consts. Qed.
 Print Assumptions c16_constants.
 
-(* ------------------------------------------------------------------ integer leaves *)
+(* ------------------------------------------------------------------ integer leaves
+   int_range n sg x  :=  if sg then -(256^n / 2) <= x < 256^n / 2 else 0 <= x < 256^n   (Proofs/CodecInt.v) *)
 (* any width n >= 1, either byte order, signed or unsigned: int.from_bytes reads back what int.to_bytes wrote, n octets *)
 Theorem c16_int_roundtrip : forall n le sg x b, (1 <= n)%nat ->
   enc_int n le sg x = Ok b -> dec_int le sg b = x /\ length b = n /\ Forall (fun o => 0 <= o < 256) b.
@@ -26,16 +27,13 @@ Print Assumptions c16_int_roundtrip.
 
 (* conversely every string of n >= 1 octets is the encoding of the integer it decodes to, and that integer is in range *)
 Theorem c16_int_decode_encode : forall le sg b, Forall (fun o => 0 <= o < 256) b -> (1 <= length b)%nat ->
-  enc_int (length b) le sg (dec_int le sg b) = Ok b /\
-  (if sg then - (256 ^ Z.of_nat (length b) / 2) <= dec_int le sg b < 256 ^ Z.of_nat (length b) / 2
-   else 0 <= dec_int le sg b < 256 ^ Z.of_nat (length b)).
-Proof. exact (fun le sg b Hb Hn => conj (dec_enc_int le sg b Hb Hn) (dec_int_range le sg b Hb Hn)). Qed.
+  enc_int (length b) le sg (dec_int le sg b) = Ok b /\ int_range (length b) sg (dec_int le sg b).
+Proof. exact int_decode_encode. Qed.
 Print Assumptions c16_int_decode_encode.
 
 (* an integer is unencodable exactly outside the two's-complement / unsigned range: OverflowError (Crash 2 at field level) *)
 Theorem c16_int_overflow : forall n le sg x, (1 <= n)%nat ->
-  ~ (if sg then - (256 ^ Z.of_nat n / 2) <= x < 256 ^ Z.of_nat n / 2 else 0 <= x < 256 ^ Z.of_nat n) ->
-  enc_int n le sg x = Crash 2.
+  ~ int_range n sg x -> enc_int n le sg x = Crash 2.
 Proof. exact enc_int_overflow. Qed.
 Print Assumptions c16_int_overflow.
 
@@ -75,7 +73,7 @@ Print Assumptions c16_enc_dec.
 (* for a dict that holds exactly the present fields in field order: decode (encode v) = v *)
 Theorem c16_enc_dec_exact : forall fs v u b,
   fits fs v [] 0 v u /\ NoDup (keys v) -> encode fs v = Ok b -> decode true fs b = Ok (v, length b).
-Proof. exact (fun fs v u b H E => proj1 (enc_dec_top fs v v u b true H E)). Qed.
+Proof. exact enc_dec_exact. Qed.
 Print Assumptions c16_enc_dec_exact.
 
 (* the decoded message is canonical: encoding it reproduces the octets of the original encoding *)
@@ -96,20 +94,28 @@ Theorem c16_dec_enc : forall chk fs data v n,
 Proof. exact dec_enc_top. Qed.
 Print Assumptions c16_dec_enc.
 
+(* literal agreement: if the definition has no spare octets, no spare bit-fields and no padding bits (spare_free), the
+   re-encoding IS the consumed input, octet for octet *)
+Theorem c16_dec_enc_exact : forall chk fs data v n,
+  wfb fs = true -> spare_free fs = true -> Forall (fun o => 0 <= o < 256) data -> decode chk fs data = Ok (v, n) ->
+  encode fs v = Ok (firstn n data).
+Proof. exact dec_enc_exact. Qed.
+Print Assumptions c16_dec_enc_exact.
+
 (* ------------------------------------------------------------------ errors *)
 (* the Envelope API raises only its own errors: decode gives Ok / DecodeErr / (OutOfFuel), encode gives Ok / EncodeErr;
    Crash only as 9 = ProtocolError of a definition the constructors reject *)
 Theorem c16_results_closed : forall chk fs data e,
   match decode chk fs data with Ok _ | DecodeErr _ | OutOfFuel => True | EncodeErr _ => False | Crash c => c = 9 /\ proto_ok fs = false end /\
   match encode fs e with Ok _ | EncodeErr _ | OutOfFuel => True | DecodeErr _ => False | Crash c => c = 9 /\ proto_ok fs = false end.
-Proof. exact (fun chk fs data e => conj (decode_closed chk fs data) (encode_closed fs e)). Qed.
+Proof. exact results_closed. Qed.
 Print Assumptions c16_results_closed.
 
 (* encoding always terminates; decoding terminates whenever every sequence item has an always-present field of fixed
    length >= 1 (otherwise the Python `while offset < length` loop spins: the model's OutOfFuel) *)
 Theorem c16_terminates : forall chk fs data e,
   encode fs e <> OutOfFuel /\ (seq_ok fs = true -> decode chk fs data <> OutOfFuel).
-Proof. exact (fun chk fs data e => conj (encode_terminates fs e) (decode_terminates chk fs data)). Qed.
+Proof. exact terminates. Qed.
 Print Assumptions c16_terminates.
 
 (* Field.from_bytes: "Short read" exactly when fewer octets remain than the field needs *)
@@ -148,33 +154,52 @@ Print Assumptions c16_fixed_mismatch.
 Theorem c16_unencodable_int : forall fs e nm n p le sg off mult z,
   proto_ok fs = true -> In (FUint nm (LFix n) p le sg off mult) fs -> (1 <= n)%nat -> get_pres p e = Ok true ->
   lookup nm e = Some (VInt z) -> mult <> 0 ->
-  ~ (if sg then - (256 ^ Z.of_nat n / 2) <= (z - off) / mult < 256 ^ Z.of_nat n / 2 else 0 <= (z - off) / mult < 256 ^ Z.of_nat n) ->
-  exists c, encode fs e = EncodeErr c.
-Proof. exact (fun fs e nm n p le sg off mult z Hpo Hin Hn Hp Hl Hm Hr =>
-  unencodable fs _ e Hpo Hin (enc_fails_uint nm n p le sg off mult e z Hn Hp Hl Hm Hr)). Qed.
+  ~ int_range n sg ((z - off) / mult) -> exists c, encode fs e = EncodeErr c.
+Proof. exact unencodable_int. Qed.
 Print Assumptions c16_unencodable_int.
 
 (* a buffer whose length differs from the fixed length of its field: EncodeError *)
 Theorem c16_wrong_length_buffer : forall fs e nm n p b,
   proto_ok fs = true -> In (FBuf nm (LFix (S n)) p) fs -> get_pres p e = Ok true ->
   lookup nm e = Some (VBytes b) -> length b <> S n -> exists c, encode fs e = EncodeErr c.
-Proof. exact (fun fs e nm n p b Hpo Hin Hp Hl Hn => unencodable fs _ e Hpo Hin (enc_fails_buf nm n p e b Hp Hl Hn)). Qed.
+Proof. exact wrong_length_buffer. Qed.
 Print Assumptions c16_wrong_length_buffer.
 
 (* a missing value (KeyError inside the field) is wrapped into EncodeError *)
 Theorem c16_missing_value : forall fs e nm l p le sg off mult,
   proto_ok fs = true -> In (FUint nm l p le sg off mult) fs -> get_pres p e = Ok true -> lookup nm e = None ->
   exists c, encode fs e = EncodeErr c.
-Proof. exact (fun fs e nm l p le sg off mult Hpo Hin Hp Hl => unencodable fs _ e Hpo Hin (enc_fails_missing_uint nm l p le sg off mult e Hp Hl)). Qed.
+Proof. exact missing_value. Qed.
 Print Assumptions c16_missing_value.
+
+(* REFUTED strengthening, recorded finding c16-varlen-buf-length-not-enforced: a buffer whose length disagrees with the
+   length its field declares through a get_len callback is NOT rejected (only `len=n` is enforced by Field.to_bytes):
+   m = 1 selects 3 octets, the 2-octet buffer encodes to 01 01 02 without error, and that encoding does not decode.
+   This is why c16_enc_dec carries the hypothesis `get_len l e0 L = Ok (length b)` inside `fits` (constructor fits_buf). *)
+Theorem c16_varlen_buf_unchecked_refuted :
+  wfb [FUint 0 (LFix 1) PAlways false false 0 1; FBuf 1 (LTab 0 [(0, 2%nat); (1, 3%nat)]) PAlways] = true /\
+  get_len (LTab 0 [(0, 2%nat); (1, 3%nat)]) [(0%nat, VInt 1); (1%nat, VBytes [1; 2])] 0 = Ok 3%nat /\
+  encode [FUint 0 (LFix 1) PAlways false false 0 1; FBuf 1 (LTab 0 [(0, 2%nat); (1, 3%nat)]) PAlways]
+         [(0%nat, VInt 1); (1%nat, VBytes [1; 2])] = Ok [1; 1; 2] /\
+  decode true [FUint 0 (LFix 1) PAlways false false 0 1; FBuf 1 (LTab 0 [(0, 2%nat); (1, 3%nat)]) PAlways] [1; 1; 2] = DecodeErr 0 /\
+  ~ (forall fs e nm l p b n, wfb fs = true -> In (FBuf nm l p) fs -> get_pres p e = Ok true -> lookup nm e = Some (VBytes b) ->
+       get_len l e 0 = Ok n -> length b <> n -> exists c, encode fs e = EncodeErr c).
+Proof. exact varlen_buf_unchecked_refuted. Qed.
+Print Assumptions c16_varlen_buf_unchecked_refuted.
 
 (* ------------------------------------------------------------------ non-vacuity: one definition using every construct *)
 Theorem c16_example :
   wfb ex_def = true /\ proto_ok ex_def = true /\ seq_ok ex_def = true /\
   (fits ex_def ex_val [] 0 ex_val 17 /\ NoDup (keys ex_val)) /\
   encode ex_def ex_in = Ok ex_bytes /\ encode ex_def ex_val = Ok ex_bytes /\ decode true ex_def ex_bytes = Ok (ex_val, 17%nat).
-Proof. exact (conj (proj1 ex_static) (conj (proj1 (proj2 ex_static)) (conj (proj2 (proj2 ex_static)) (conj ex_fits (conj (proj1 ex_encode) (conj (proj2 ex_encode) ex_decode)))))). Qed.
+Proof. exact example_all. Qed.
 Print Assumptions c16_example.
+
+Theorem c16_example_spare_free :
+  wfb ex2_def = true /\ spare_free ex2_def = true /\ Forall (fun o => 0 <= o < 256) ex2_bytes /\
+  exists v, decode true ex2_def ex2_bytes = Ok (v, 12%nat) /\ encode ex2_def v = Ok ex2_bytes.
+Proof. exact ex2_all. Qed.
+Print Assumptions c16_example_spare_free.
 
 Theorem c16_example_errors :
   decode true ex_def (firstn 16 ex_bytes) = DecodeErr 0 /\
